@@ -34,6 +34,7 @@ def BOUNDS(tier):
     if tier == "quick":
         return {"rich": {"depth": 1, "alphabet": "full"}, "mini": {"depth": 2, "alphabet": "thin"},
                 "empty": {"depth": 3, "alphabet": "full"}, "handles": ["ABAB"],
+                "xmini": "depth 1, thin alphabet incl. cross-block positions/extents links and every delete addressing mode",
                 "states mode (E1s, de-duplicated BFS)": "mini: every state <= 1 thin operation away, every thin operation fired from a byte copy in a fresh session (depth 2 without the same-entity reduction)",
                 "two-handle histories": "mini, depth exactly 3, link/unlink/metadata/definition on one entity (group, tag), patterns ABA and AAB"}
     return {"rich": {"depth": 1, "alphabet": "full"}, "mini": {"depth": 2, "alphabet": "full"},
@@ -63,12 +64,15 @@ def cases(tier):
         add("rich", explorer.enumerate_histories("rich", 1, {"delete_modes": True}), ["AB"])
         add("mini", explorer.enumerate_histories("mini", 2, THIN, follow=explorer.same_entity_or_reopen), ["AB"])
         add("empty", explorer.enumerate_histories("empty", 3, {}), ["AB"])
+        add("xmini", explorer.enumerate_histories("xmini", 1, {"delete_modes": True, "xblock": True, "thin": True}), ["AB"])
         for ent in (["blocks", "blk", "groups", "grp"], ["blocks", "blk", "tags", "tag"]):
-            add("mini", [h for h in explorer.enumerate_histories("mini", 3, handle_cfg(ent)) if len(h) == 3], ["AB", "AAB"])
+            add("mini", [h for h in explorer.enumerate_histories("mini", 3, handle_cfg(ent)) if len(h) == 3], ["AB", "AAB", "ABB"])
     else:
         add("rich", explorer.enumerate_histories("rich", 1, {"delete_modes": True}), ["AB", "fresh"])
         add("mini", explorer.enumerate_histories("mini", 2, {"delete_modes": True}), ["AB"])
         add("empty", explorer.enumerate_histories("empty", 4, {}), ["AB"])
+        add("xmini", explorer.enumerate_histories("xmini", 1, {"delete_modes": True, "xblock": True}), ["AB"])
+        add("xmini", explorer.enumerate_histories("xmini", 2, {"xblock": True, "thin": True, "only": {"set_ref", "delete", "reopen", "unlink"}}), ["AB"])
         for ent in (["blocks", "blk", "groups", "grp"], ["blocks", "blk", "tags", "tag"], ["blocks", "blk", "data_arrays", "sig"]):
             add("mini", [h for h in explorer.enumerate_histories("mini", 3, handle_cfg(ent)) if len(h) == 3], ["AB", "AAB", "ABB"])
     # E1s: explicit-state BFS with de-duplication on the canonical state (mc/bfs.py)
